@@ -8,7 +8,7 @@ package bluemonday
 
 //@ func (*bluemonday.Policy).allowNoAttrs
 //@   reveal[C14] wfRegex
-//@   requires p != nil
+//@   requires wfp(p)
 //@   ensures result == bareOK(p, elementName)
 //@   loop 0 "for _, r := range p.setOfElementsMatchingAllowedWithoutAttrs"
 //@     invariant !(elementName in p.setOfElementsAllowedWithoutAttrs)
@@ -659,3 +659,13 @@ package bluemonday
 //@ func (*bluemonday.Policy).AllowDataURIImages$1
 //@   requires url != nil
 //@   modifies nothing
+
+//@ func bluemonday.removeUnicode
+//@   modifies nothing
+//@   loop 0 "for currentLoc != nil"
+//@     invariant currentLoc == nilslice || (len(currentLoc) == 2 && 0 <= currentLoc[0] && currentLoc[0] + 2 <= currentLoc[1] && currentLoc[1] <= len(substitutedValue))
+
+//@ func css.recursiveCheck
+//@   requires forall i int :: 0 <= i && i < len(funcs) ==> funcs[i] != nil
+//@   modifies nothing
+//@   decreases len(value)
